@@ -11,6 +11,7 @@ import (
 	"strings"
 	"sync/atomic"
 	"testing"
+	"testing/cryptotest"
 	"testing/synctest"
 	"time"
 )
@@ -50,6 +51,11 @@ type Result struct {
 }
 
 var heartbeat atomic.Uint64
+
+type rethrow struct {
+	p     any
+	stack string
+}
 
 // SiteFromStack returns the innermost frame inside the repository.
 func SiteFromStack(stack string) string {
@@ -92,6 +98,7 @@ func PanicClass(p any) string {
 func RunOne(t *testing.T, prop string, spec *Spec, seed uint64, idx uint64, tape *Tape, trace bool) (res Result) {
 	res = Result{Ev: "done", Idx: idx}
 	r := NewRun(prop, seed, tape)
+	r.Index = idx
 	r.Heartbeat = &heartbeat
 	r.Trace = trace
 	if trace {
@@ -101,10 +108,15 @@ func RunOne(t *testing.T, prop string, spec *Spec, seed uint64, idx uint64, tape
 		spec.ResetGlobals()
 	}
 	ResetTags()
+	var inner any
+	var innerStack string
 	func() {
 		defer func() {
 			if p := recover(); p != nil {
 				st := string(debug.Stack())
+				if rt, ok := p.(rethrow); ok {
+					p, st = rt.p, rt.stack
+				}
 				msg := fmt.Sprint(p)
 				if strings.Contains(msg, "deadlock: main bubble goroutine has exited") {
 					// goroutines left behind at the end of the bubble
@@ -118,10 +130,23 @@ func RunOne(t *testing.T, prop string, spec *Spec, seed uint64, idx uint64, tape
 				}
 			}
 		}()
-		synctest.Test(t, func(t *testing.T) {
-			r.Begin()
-			res.Sample = spec.World(t, r)
+		t.Run(fmt.Sprintf("run%d", idx), func(t *testing.T) {
+			defer func() {
+				if p := recover(); p != nil {
+					inner = p
+					innerStack = string(debug.Stack())
+				}
+			}()
+			// crypto/rand (NTS identifiers, nonces, keys, TLS) is a function of the run seed
+			cryptotest.SetGlobalRandom(t, Mix(seed, prop, idx))
+			synctest.Test(t, func(t *testing.T) {
+				r.Begin()
+				res.Sample = spec.World(t, r)
+			})
 		})
+		if inner != nil {
+			panic(rethrow{inner, innerStack})
+		}
 	}()
 	res.Hash = strconv.FormatUint(r.Hash(), 16)
 	res.Steps = r.Step
